@@ -147,6 +147,17 @@ def _segmentations_exist(kinds, record_length, setting, position=0, first=True):
     return False
 
 
+def _viable_prefix(kinds, record_length, setting):
+    """Can the consumed characters be continued to a well-formed stream?  (The reader must not reject such a prefix.)"""
+    import itertools
+
+    for extra in range(0, record_length + 3):
+        for extension in itertools.product(("X", "CR", "LF"), repeat=extra):
+            if _segmentations_exist(list(kinds) + list(extension), record_length, setting):
+                return True
+    return False
+
+
 def _check_rows(rows, consumed, widths, setting):
     """Rows must have the declared widths and, interleaved with permitted delimiters, reproduce the consumed stream."""
     position = 0
@@ -211,6 +222,8 @@ def fixed_rows_cell(model, ch, max_length):
         return (key, outcome, "conforms")
     if well_formed:
         return (key, "well-formed input rejected with DataFormatError", "conforms")
+    if not state["ended"] and _viable_prefix(kinds, sum(widths), setting):
+        return (key, "rejected with DataFormatError after a prefix that well-formed inputs start with", "conforms")
     # rows yielded before the error must still be a faithful prefix
     position = 0
     for row in rows:
